@@ -21,9 +21,11 @@ import (
 
 const rtPath = "github.com/blugelabs/ice/v2/verifrt"
 
-var sharedTypeNames = map[string]bool{
-	"Segment": true, "footer": true, "docValueReader": true,
-	"PostingsList": true, "PostingsIterator": true, "Dictionary": true, "DictionaryIterator": true,
+// recordedType: accesses to fields of every named struct type declared in package ice are
+// recorded (the run time decides which of them are scheduling points / fully monitored).
+func recordedType(n *types.Named) bool {
+	_, isStruct := n.Underlying().(*types.Struct)
+	return isStruct
 }
 
 type inst struct {
@@ -411,7 +413,7 @@ func (in *inst) sharedField(sel *ast.SelectorExpr) bool {
 		t = p.Elem()
 	}
 	n, ok := t.(*types.Named)
-	return ok && n.Obj().Pkg() == in.pkg.Types && sharedTypeNames[n.Obj().Name()]
+	return ok && n.Obj().Pkg() == in.pkg.Types && recordedType(n)
 }
 
 // baseExpr returns an expression evaluating to a pointer identifying the base object.
